@@ -13,7 +13,12 @@ def closures(r):
         return None
     pn = ninjaparse.parse(r["ninja"])
     out = {}
+    prod = ninjaparse.producers(pn)
     for b in projcheck.built(r):
+        if ninjaparse.ambiguous(pn, b["outfile"], prod):
+            # several builds write one ${outfile} (C06 known finding "outfile-collision"): the statements of one build cannot be told apart
+            out[(b["builder"], b["app"])] = None
+            continue
         out[(b["builder"], b["app"])] = tuple(sorted(ninjaparse.closure(pn, b["outfile"])))
     return out
 
@@ -92,6 +97,9 @@ def judge(chk, p0, r0, vs, n):
             if k not in c0:
                 chk.fail_oracle("indep:extra-build", f"{kind} {a}: build {k} is configured only in the restricted run", {"project": p0, "args": a})
                 return
+            if cl is None or c0[k] is None:
+                chk.count("skipped:outfile-with-several-producers")
+                continue
             if cl != c0[k]:
                 nt = True
                 chk.fail_oracle("indep:statements-differ", f"{kind} {a}: statements of {k} differ from the unrestricted run", {"project": p0, "args": a, "build": list(k)})
